@@ -25,8 +25,8 @@ CVAL_VALUES = [-2 ** 31, -1, 0, 1, 129, 257, 300, 1000, 32769, 65536, 2 ** 31 - 
 def plan(tier, seed):
     fx = [os.path.relpath(f, env.FIXTURE_DIR) for f in env.fixtures()]
     n = 4 if tier == "quick" else 16
-    muts = 12 if tier == "quick" else 160
-    gens = 30 if tier == "quick" else 300
+    muts = 40 if tier == "quick" else 200
+    gens = 100 if tier == "quick" else 400
     return [{"tier": tier, "seed": seed, "shard": i, "fixtures": fx[i::n], "mutations": muts,
              "gen_start": i * gens, "gen_count": gens} for i in range(n)]
 
